@@ -19,6 +19,7 @@ import (
 	"go/ast"
 	"go/token"
 	"go/types"
+	"slices"
 
 	"go.uber.org/nilaway/annotation"
 	"go.uber.org/nilaway/config"
@@ -201,8 +202,10 @@ func (r *RootAssertionNode) funcArgsFromCallExpr(expr *ast.CallExpr) []ast.Expr 
 			return expr.Args[1:]
 		}
 	case *ast.FuncLit:
-		args := expr.Args
 		if info, ok := r.functionContext.funcLitMap[fun]; ok {
+			// The argument list belongs to the (shared) syntax tree: copy it instead of appending
+			// to it, which would write into its spare capacity.
+			args := slices.Clone(expr.Args)
 			for _, closure := range info.ClosureVars {
 				args = append(args, closure.Ident)
 			}
